@@ -468,6 +468,7 @@ func ReadDataBlockBloomFilters(file io.ReadSeeker, blockMetadata DataBlockMetada
 	// The section bytes are transient: parseFilterSection copies out what it
 	// retains, so the buffer goes straight back to the pool.
 	section := getScanBuffer(blockMetadata.BloomFilterSize)
+	verifEventS("sb.get", int64(blockMetadata.BloomFilterSize), 0, unsafeString(section[:cap(section)]))
 	defer putScanBuffer(section)
 	if err := readFullAt(file, section, int64(blockMetadata.BloomFilterOffset)); err != nil {
 		return nil, fmt.Errorf("failed to read bloom filters: %w", err)
@@ -647,6 +648,7 @@ func (c *blockFilterCursor) readChunkFrom(i int) error {
 	// The new buffer is taken before the old one is released, so they cannot be
 	// the same buffer.
 	buf := getScanBuffer(int(end - start))
+	verifEventS("sb.get", end-start, 0, unsafeString(buf[:cap(buf)]))
 	readStart := time.Now()
 	if err := readFullAt(c.file, buf, start); err != nil {
 		putScanBuffer(buf)
@@ -865,6 +867,7 @@ func readPooledBlockRowData(file io.ReadSeeker, block *DataBlockMetadata) (rowDa
 	}
 
 	compressed := getScanBuffer(block.RowDataSize)
+	verifEventS("sb.get", int64(block.RowDataSize), 0, unsafeString(compressed[:cap(compressed)]))
 	if err := readFullAt(file, compressed, int64(block.RowDataOffset)); err != nil {
 		putScanBuffer(compressed)
 		return nil, nil, fmt.Errorf("failed to read row data: %w", err)
@@ -882,6 +885,7 @@ func readPooledBlockRowData(file io.ReadSeeker, block *DataBlockMetadata) (rowDa
 	}
 
 	dst := getScanBuffer(block.UncompressedSize)
+	verifEventS("sb.get", int64(block.UncompressedSize), 0, unsafeString(dst[:cap(dst)]))
 	rowData, err = decodeBlockRowDataInto(dst, compressed, block)
 	// The decompressors copy into rowData and their pooled state is Reset
 	// inside decode, so the compressed buffer is reusable as soon as decode
